@@ -1269,7 +1269,7 @@ func gap9C07(g *Gen, tier string, res *GenOutput) {
 				case dom == 2 && i == 1 && j == 0:
 					c.Data = append(c.Data, BoolCell(true)) // row 1 differs from row 0 in the first column only
 				case dom == 2:
-					c.Data = append(c.Data, BoolCell(i == 2 && j%2 == 1))
+					c.Data = append(c.Data, BoolCell(i == 2)) // row 2: true everywhere, so that every column has two values
 				default:
 					c.Data = append(c.Data, IntCell("int", int64((i*(j+1)+i/16)%dom)))
 				}
